@@ -53,24 +53,20 @@ static int nregions_used;
 
 static void watch_cb(const volatile void *base, size_t len, const char *name) { if (nregions_used < 60) { cs_watch(base, len, name); nregions_used++; } }
 
-/* ltq allocates its heaps while the threads run: watch them as they are created (interposes the exported heap_create) */
-parsec_heap_t *heap_create(void)
-{
-    static parsec_heap_t *(*real)(void) = NULL;
-    if (!real) real = (parsec_heap_t *(*)(void))dlsym(RTLD_NEXT, "heap_create");
-    parsec_heap_t *h = real();
-    if (cs_in_child() && cur && nregions_used < 60) { cs_watch(h, sizeof(*h), "heap"); nregions_used++; }
-    return h;
-}
-
+/* ltq allocates (and frees) its heaps while the threads run.  They are NOT watched: a freed heap's memory is
+ * recycled by malloc for unrelated blocks in an allocator-state dependent way, which made the set of scheduling
+ * points differ between a long-lived worker and a fresh process (cosched reported it as nondeterminism).  The heap
+ * TREE is still covered: its child pointers are the tasks' list links, which are watched; only the three header
+ * fields (size, priority, top) of a heap are not scheduling points. */
 static int task_id(parsec_task_t *t) { if (!t) return -1; if (t < tasks || t >= tasks + ntasks || ((char *)t - (char *)tasks) % sizeof(parsec_task_t)) return -2; return (int)(t - tasks); }
+static int tt_distinct;
 static parsec_task_t *take_tasks(int n, const int *prio, int base_prio)
 {
     parsec_task_t *r[MAXTASK];
     for (int i = 0; i < n; i++) {
         parsec_task_t *t = &tasks[ntasks++];
         t->priority = prio ? prio[i] : base_prio + i;
-        t->data[0].data_in = (parsec_data_copy_t *)(uintptr_t)(0x1000 + 64 * ((ntasks - 1) / 2));   /* pairs share an input (ltq) */
+        t->data[0].data_in = (parsec_data_copy_t *)(uintptr_t)(0x1000 + 64 * (tt_distinct ? 1000 + ntasks : (ntasks - 1) / 2));   /* pairs share an input (ltq), or none does */
         r[i] = t; __sync_fetch_and_add(&n_sched[ntasks - 1], 1);
     }
     return c08_ring(r, n);
@@ -124,13 +120,15 @@ static void run_scen(const scen_t *sc)
     if (c08_mod == S_SPQ) for (int d = 0; d < 3; d++) { parsec_task_t *w = &tasks[MAXTASK - 1]; PARSEC_LIST_ITEM_SINGLETON(&w->super); C08_SCHEDULE(0, w, d); parsec_task_t *g = c08_select(0); if (g != w) cs_fail("spq: warm-up task not returned"); }
     /* sequential pre-fill */
     int pf = sc->prefill_n; if (pf == -1) pf = local_capacity() - 1;
+    tt_distinct = sc->prefill_n < 0;
     if (pf > 0) { if (pf > MAXTASK - 32) pf = MAXTASK - 32; C08_SCHEDULE(sc->prefill_es, take_tasks(pf, NULL, 100), sc->prefill_dist); }
     /* reserve the tasks of every schedule step (ids independent of the interleaving) */
     for (int t = 0; t < sc->nthreads; t++) for (int s = 0; s < MAXSTEP && sc->th[t][s].type != ST_END; s++) {
         resptr[t][s] = NULL; results[t][s] = -9;
         if (sc->th[t][s].type == ST_SCHED) { resptr[t][s] = (parsec_task_t *)(intptr_t)ntasks; for (int i = 0; i < sc->th[t][s].n; i++) tasks[ntasks++].priority = sc->th[t][s].prio[i]; }
     }
-    for (int i = 0; i < ntasks; i++) tasks[i].data[0].data_in = (parsec_data_copy_t *)(uintptr_t)(0x1000 + 64 * (i / 2));
+    /* ltq groups consecutive tasks sharing an input into one heap: pairs share, except in a capacity pre-fill (one heap per task, so that the buffer really fills up) */
+    for (int i = (pf > 0 ? pf : 0); i < ntasks; i++) tasks[i].data[0].data_in = (parsec_data_copy_t *)(uintptr_t)(0x1000 + 64 * (i / 2));
     /* watched: the module's shared objects and the tasks' links.
      * lhq's bounded buffers have 24..96 slots; only the first W are watched, W = tasks + re-schedules + 2: a pusher
      * passes slot j only after seeing it occupied, at most `tasks` slots are occupied at a time and a task changes slot
@@ -166,6 +164,8 @@ R(0) R(1) R(2) R(3) R(4) R(5) R(6)
 static void (*const RUNS[])(void) = { run_0, run_1, run_2, run_3, run_4, run_5, run_6 };
 
 static const char *g_sched = "lfq"; static int g_k = 2;
+static const char *g_only[8]; static int g_nonly = 0;   /* --only <substring>: keep only matching scenarios */
+static const char *g_full[8]; static int g_nfull = 0;   /* --full <substring>: only matching scenarios go beyond preemption bound 1 */
 static void setup(void) { if (c08_init(g_sched, g_k)) exit(2); }
 
 int main(int argc, char **argv)
@@ -175,6 +175,8 @@ int main(int argc, char **argv)
     for (int i = 0; i < argc && ac < 60; i++) {
         if (!strcmp(argv[i], "--sched") && i + 1 < argc) g_sched = argv[++i];
         else if (!strcmp(argv[i], "--streams") && i + 1 < argc) g_k = atoi(argv[++i]);
+        else if (!strcmp(argv[i], "--only") && i + 1 < argc && g_nonly < 8) g_only[g_nonly++] = argv[++i];
+        else if (!strcmp(argv[i], "--full") && i + 1 < argc && g_nfull < 8) g_full[g_nfull++] = argv[++i];
         else av[ac++] = argv[i];
     }
     av[ac] = NULL;
@@ -184,8 +186,12 @@ int main(int argc, char **argv)
     for (int i = 0; i < NSCN; i++) {
         if (SCN[i].k != g_k) continue;
         if (SCN[i].only_mods && !(SCN[i].only_mods & M(mod))) continue;
+        if (g_nonly) { int hit = 0; for (int f = 0; f < g_nonly; f++) if (strstr(SCN[i].name, g_only[f])) hit = 1; if (!hit) continue; }
         snprintf(names[n], sizeof(names[n]), "%s_k%d_%s", g_sched, g_k, SCN[i].name);
-        scen[n].name = names[n]; scen[n].run = RUNS[i]; scen[n].max_bound = SCN[i].max_bound; n++;
+        scen[n].name = names[n]; scen[n].run = RUNS[i]; scen[n].max_bound = SCN[i].max_bound;
+        if (mod == S_LHQ && SCN[i].prefill_n < 0) scen[n].max_bound = 1;     /* pre-filled 96-slot buffer: ~700 points per execution */
+        if (g_nfull) { int hit = 0; for (int f = 0; f < g_nfull; f++) if (strstr(SCN[i].name, g_full[f])) hit = 1; if (!hit) scen[n].max_bound = 1; }
+        n++;
     }
     return cs_main(ac, av, "C08", scen, n, setup);
 }
